@@ -81,7 +81,7 @@ pub fn midpoint_within_relative_error() {
     }
 }
 
-// @check C11 thorough timeout=3600 mem=30
+// @check C11 thorough timeout=3600 mem=20
 // @encodes histogram::Histogram::add / Config::value_to_index against the reference bounds; histogram::Histogram::iter (Bucket::range) for low indices
 // @bounds every u64 x; adjacent value x+1
 // @oracle x and the upper end of its reference bucket land in the same real bucket, and hi+1 lands in the next one (so the real layout equals the reference layout the error lemma was proved for)
